@@ -194,7 +194,7 @@ func (sc *RevScenario) timeInvariant() bool {
 						return false
 					}
 				}
-				if s.CacheSeed != 0 {
+				if s.CacheSeed == 2 || s.CacheSeed == 4 {
 					return false
 				}
 			}
@@ -214,7 +214,7 @@ func canonResults(obs *RevObs) string {
 		if co.Err != nil {
 			e = fmt.Sprintf("%T", co.Err)
 		}
-		parts = append(parts, fmt.Sprintf("caller%d err=%s panic=%v: %s", co.World.ID, e, co.Panicked, strings.Join(rs, " ; ")))
+		parts = append(parts, fmt.Sprintf("caller%d.%d err=%s panic=%v: %s", co.World.ID, co.Rep, e, co.Panicked, strings.Join(rs, " ; ")))
 	}
 	return strings.Join(parts, " || ")
 }
